@@ -74,3 +74,27 @@ def to_bytes(d):
                     n.add(cur, a, b, nx)
                     cur = nx
     return determinize(n, base[d.start], [base[f] for f in d.finals], 255).minimize()
+
+
+def to_bytes_marked(d, nmarkers, extra_points=()):
+    """like to_bytes for a DFA over scalar values 0..0x10FFFF plus marker letters 0x110000+k: the result is over bytes
+    0..255 plus marker letters 256+k"""
+    n = NFA()
+    base = [n.new() for _ in range(d.n)]
+    for s in range(d.n):
+        for c, t in d.trans[s].items():
+            lo, hi = d.alpha.starts[c], d.alpha.ends[c]
+            if lo >= 0x110000:
+                for v in range(lo, hi + 1):
+                    k = v - 0x110000
+                    n.add(base[s], 256 + k, 256 + k, base[t])
+                continue
+            hi = min(hi, 0x10FFFF)
+            for seq in utf8_sequences(lo, hi):
+                cur = base[s]
+                for i, (a, b) in enumerate(seq):
+                    nx = base[t] if i == len(seq) - 1 else n.new()
+                    n.add(cur, a, b, nx)
+                    cur = nx
+    pts = set(extra_points) | {256} | {256 + i for i in range(nmarkers + 1)}
+    return determinize(n, base[d.start], [base[f] for f in d.finals], 255 + nmarkers, False, pts).minimize()
